@@ -382,6 +382,12 @@ func (e *Engine) callModular(fr *Frame, st *State, fc *FuncContract, name string
 		}
 		post.names["\\result"] = res
 	}
+	if len(fc.Fresh) > 0 && fc.Pure {
+		nt := e.ctx.Declare("top", "Int")
+		e.ctx.Assume(sx(">=", nt, st.top))
+		st.top = nt
+		e.record(func(w *WriteSet) { w.alloc = true })
+	}
 	for _, f := range fc.Fresh {
 		v, ok := post.names[f]
 		if !ok {
@@ -396,7 +402,7 @@ func (e *Engine) callModular(fr *Frame, st *State, fc *FuncContract, name string
 		default:
 			r = v.T
 		}
-		e.ctx.Assume(implies(st.pc, or(eq(r, "0"), sx(">", r, pre.top))))
+		e.ctx.Assume(implies(st.pc, or(eq(r, "0"), and(sx(">", r, pre.top), sx("<=", r, st.top)))))
 	}
 	for _, en := range fc.Ensures {
 		g := e.evalBool(en.Expr, post)
